@@ -37,46 +37,57 @@ Qed.
 
 (* ---------- the frame relation ---------- *)
 
-Definition is_dict (o : option obj) : Prop := exists e, o = Some (ODict e).
+(* objects that only their own handler activation writes: dicts, classes, instances
+   (functions are also written through the uncut method / classmethod path, cells through their functions) *)
+Definition protected (o : obj) : bool :=
+  match o with ODict _ | OClass _ _ _ _ _ | OInst _ _ _ _ => true | _ => false end.
 
-(* dicts on `stk`, except `ex`, are as before *)
+(* protected objects on `stk`, except `ex`, are as before *)
+Definition gframeX (stk : list addr) (ex : option addr) (s s' : st) : Prop :=
+  forall d o, In d stk -> Some d <> ex -> lookup (hp s) d = Some o -> protected o = true -> lookup (hp s') d = Some o.
+Definition gframe (stk : list addr) := gframeX stk None.
+
+Lemma gframeX_refl stk ex s : gframeX stk ex s s.
+Proof. intros d o _ _ H _. exact H. Qed.
+
+Lemma gframeX_trans stk ex s1 s2 s3 : gframeX stk ex s1 s2 -> gframeX stk ex s2 s3 -> gframeX stk ex s1 s3.
+Proof. intros H1 H2 d o Hin Hex Hl Hp. apply (H2 d o Hin Hex); [|exact Hp]. apply (H1 d o Hin Hex Hl Hp). Qed.
+
+Lemma gframe_weaken stk stk' ex s s' :
+  (forall d, In d stk' -> In d stk) -> gframe stk s s' -> gframeX stk' ex s s'.
+Proof. intros Hinc H d o Hin _ Hl Hp. apply (H d o); [apply Hinc; exact Hin|discriminate|exact Hl|exact Hp]. Qed.
+
+Lemma gframeX_cache stk ex s s' c : gframeX stk ex s s' -> gframeX stk ex s (mkSt (hp s') c).
+Proof. intros H d o Hin Hex Hl Hp. simpl. apply (H d o Hin Hex Hl Hp). Qed.
+
+(* writing at the excepted address, or over an unprotected object *)
+Lemma gframeX_upd stk ex s a o' :
+  (Some a = ex \/ forall o, lookup (hp s) a = Some o -> protected o = false) -> gframeX stk ex s (upd s a o').
+Proof.
+  intros Hc d o Hin Hex Hl Hp. unfold upd, set_hp. simpl.
+  destruct (N.eq_dec a d) as [->|Hne].
+  - destruct Hc as [Hc|Hc]; [congruence|]. rewrite (Hc o Hl) in Hp. discriminate.
+  - rewrite lookup_update_other by exact Hne. exact Hl.
+Qed.
+
+(* the dict instance of the relation, as used by ShapeProofs / TotalProofs *)
 Definition dframeX (stk : list addr) (ex : option addr) (s s' : st) : Prop :=
   forall d e, In d stk -> Some d <> ex -> lookup (hp s) d = Some (ODict e) -> lookup (hp s') d = Some (ODict e).
 Definition dframe (stk : list addr) := dframeX stk None.
 
-Lemma dframeX_refl stk ex s : dframeX stk ex s s.
-Proof. intros d e _ _ H. exact H. Qed.
+Lemma gframeX_dframeX stk ex s s' : gframeX stk ex s s' -> dframeX stk ex s s'.
+Proof. intros H d e Hin Hex Hl. apply (H d (ODict e) Hin Hex Hl). reflexivity. Qed.
 
-Lemma dframeX_trans stk ex s1 s2 s3 : dframeX stk ex s1 s2 -> dframeX stk ex s2 s3 -> dframeX stk ex s1 s3.
-Proof. intros H1 H2 d e Hin Hex Hl. apply (H2 d e Hin Hex). apply (H1 d e Hin Hex). exact Hl. Qed.
-
-Lemma dframe_weaken stk stk' ex s s' :
-  (forall d, In d stk' -> In d stk) -> dframe stk s s' -> dframeX stk' ex s s'.
-Proof. intros Hinc H d e Hin _ Hl. apply (H d e); [apply Hinc; exact Hin|discriminate|exact Hl]. Qed.
-
-Lemma dframeX_cache stk ex s s' c : dframeX stk ex s s' -> dframeX stk ex s (mkSt (hp s') c).
-Proof. intros H d e Hin Hex Hl. simpl. apply (H d e Hin Hex Hl). Qed.
-
-(* writing a non-dict object over a non-dict object, or writing at the excepted address *)
-Lemma dframeX_upd stk ex s a o :
-  (Some a = ex \/ forall e, lookup (hp s) a <> Some (ODict e)) -> dframeX stk ex s (upd s a o).
+Lemma set_class_entries_frame stk s c cd : gframeX stk (Some c) s (set_class_entries s c cd).
 Proof.
-  intros Hc d e Hin Hex Hl. unfold upd, set_hp. simpl.
-  destruct (N.eq_dec a d) as [->|Hne].
-  - destruct Hc as [Hc|Hc]; [congruence|]. exfalso. exact (Hc e Hl).
-  - rewrite lookup_update_other by exact Hne. exact Hl.
+  unfold set_class_entries. destruct (lookup (hp s) c) as [o|] eqn:E; [|apply gframeX_refl].
+  destruct o; try apply gframeX_refl. apply gframeX_upd. left. reflexivity.
 Qed.
 
-Lemma set_class_entries_frame stk ex s c cd : dframeX stk ex s (set_class_entries s c cd).
+Lemma set_slotvals_frame stk s a sv : gframeX stk (Some a) s (set_slotvals s a sv).
 Proof.
-  unfold set_class_entries. destruct (lookup (hp s) c) as [o|] eqn:E; [|apply dframeX_refl].
-  destruct o; try apply dframeX_refl. apply dframeX_upd. right. intros e He. congruence.
-Qed.
-
-Lemma set_slotvals_frame stk ex s a sv : dframeX stk ex s (set_slotvals s a sv).
-Proof.
-  unfold set_slotvals. destruct (lookup (hp s) a) as [o|] eqn:E; [|apply dframeX_refl].
-  destruct o; try apply dframeX_refl. apply dframeX_upd. right. intros e He. congruence.
+  unfold set_slotvals. destruct (lookup (hp s) a) as [o|] eqn:E; [|apply gframeX_refl].
+  destruct o; try apply gframeX_refl. apply gframeX_upd. left. reflexivity.
 Qed.
 
 (* ---------- loops: fold_left over a step of the form  acc k => bind acc (fun s _ => F k s) ---------- *)
@@ -112,33 +123,46 @@ Variable bases_ok : addr -> addr -> bool.
 Variable nm : names.
 
 Variable rec : recT.
-Hypothesis Hrec : forall s st a b s' r, rec s st a b = Ok s' r -> dframe st s s'.
+Hypothesis Hrec : forall s st a b s' r, rec s st a b = Ok s' r -> gframe st s s'.
 
-Lemma rec_frameX stk ex s a b s' r : rec s stk a b = Ok s' r -> dframeX stk ex s s'.
-Proof. intros H. eapply dframe_weaken; [|eapply Hrec; exact H]. auto. Qed.
+Lemma rec_frameX stk ex s a b s' r : rec s stk a b = Ok s' r -> gframeX stk ex s s'.
+Proof. intros H. eapply gframe_weaken; [|eapply Hrec; exact H]. auto. Qed.
 
-(* _livepatch__function writes a function object only *)
+Lemma cell_step_frame stk ex c1 c2 s s' r : cell_step rec stk c1 c2 s = Ok s' r -> gframeX stk ex s s'.
+Proof.
+  unfold cell_step. destruct (cell_val (hp s) c1) as [a|]; [|discriminate].
+  destruct (cell_val (hp s) c2) as [b|]; [|discriminate].
+  intros H. apply bind_ok in H. destruct H as [s2 [u [Hr H]]].
+  eapply gframeX_trans; [eapply rec_frameX; exact Hr|].
+  destruct (u =? a)%N; [inversion H; subst; apply gframeX_refl|].
+  destruct (cell_val (hp s2) c1) as [v|] eqn:Ec; [|discriminate]. inversion H; subst.
+  apply gframeX_upd. right. intros o0 He. unfold cell_val in Ec. rewrite He in Ec.
+  destruct o0; try discriminate; reflexivity.
+Qed.
+
+(* _livepatch__function writes a function object (and its cells) only *)
 Lemma patch_function_frame stk ex s fo fn s' r :
-  patch_function rec s stk fo fn = Ok s' r -> dframeX stk ex s s'.
+  patch_function rec s stk fo fn = Ok s' r -> gframeX stk ex s s'.
 Proof.
   unfold patch_function. destruct (lookup (hp s) fo) as [o|] eqn:Eo; [|discriminate].
   destruct o; try discriminate. destruct (lookup (hp s) fn) as [n|] eqn:En; [|discriminate].
   destruct n; try discriminate.
   match goal with |- context [negb ?c] => destruct c end; simpl.
-  2:{ intros H. inversion H; subst. apply dframeX_refl. }
+  2:{ intros H. inversion H; subst. apply gframeX_refl. }
   intros H. apply bind_ok in H. destruct H as [s2 [a2 [H1 H]]].
   apply bind_ok in H. destruct H as [s3 [a3 [H2 H]]]. inversion H; subst s' r. clear H.
   match type of H1 with rec ?s1 _ _ _ = _ =>
-    assert (dframeX stk ex s s1) as Hu by (apply dframeX_upd; right; intros e He; congruence) end.
-  eapply dframeX_trans; [exact Hu|].
-  eapply dframeX_trans; [eapply rec_frameX; exact H1|].
-  eapply (patch_cells_inv rec (fun sx => dframeX stk ex s2 sx)); [| |exact H2].
-  - intros s0 x y s1 r0 HP Hr. eapply dframeX_trans; [exact HP|eapply rec_frameX; exact Hr].
-  - intros sA aA HA. inversion HA; subst. apply dframeX_refl.
+    assert (gframeX stk ex s s1) as Hu
+      by (apply gframeX_upd; right; intros o0 He; rewrite Eo in He; inversion He; reflexivity) end.
+  eapply gframeX_trans; [exact Hu|].
+  eapply gframeX_trans; [eapply rec_frameX; exact H1|].
+  eapply (patch_cells_inv rec (fun sx => gframeX stk ex s2 sx)); [| |exact H2].
+  - intros s0 x y s1 r0 HP Hr. eapply gframeX_trans; [exact HP|]. eapply cell_step_frame. exact Hr.
+  - intros sA aA HA. inversion HA; subst. apply gframeX_refl.
 Qed.
 
 Lemma patch_method_frame stk ex s a b s' r :
-  patch_method rec s stk a b = Ok s' r -> dframeX stk ex s s'.
+  patch_method rec s stk a b = Ok s' r -> gframeX stk ex s s'.
 Proof.
   unfold patch_method. destruct (lookup (hp s) a) as [o|]; [|discriminate]. destruct o; try discriminate.
   destruct (lookup (hp s) b) as [n|]; [|discriminate]. destruct n; try discriminate.
@@ -148,7 +172,7 @@ Qed.
 
 (* _livepatch__dict writes its own old dict only *)
 Lemma patch_dict_frame stk s d_old d_new s' r :
-  patch_dict rec s stk d_old d_new = Ok s' r -> dframeX stk (Some d_old) s s'.
+  patch_dict rec s stk d_old d_new = Ok s' r -> gframeX stk (Some d_old) s s'.
 Proof.
   unfold patch_dict. destruct (dict_entries (hp s) d_old) as [eo|]; [|discriminate].
   destruct (dict_entries (hp s) d_new) as [en|]; [|discriminate].
@@ -168,29 +192,29 @@ Proof.
                             end
                         | _, _ => Raised s
                         end)
-            (fun sx => dframeX stk (Some d_old) s sx)); [| |exact H].
+            (fun sx => gframeX stk (Some d_old) s sx)); [| |exact H].
   - intros k s0 s1 a1 _ HP HF.
     destruct (dict_entries (hp s0) d_old) as [eo0|]; [|discriminate].
     destruct (dict_entries (hp s0) d_new) as [en0|]; [|discriminate].
     destruct (aget eo0 k) as [o|]; [|discriminate]. destruct (aget en0 k) as [n|]; [|discriminate].
     apply bind_ok in HF. destruct HF as [s2 [u [Hr HF]]].
-    eapply dframeX_trans; [exact HP|]. eapply dframeX_trans; [eapply rec_frameX; exact Hr|].
-    destruct (u =? o)%N; [inversion HF; subst; apply dframeX_refl|].
+    eapply gframeX_trans; [exact HP|]. eapply gframeX_trans; [eapply rec_frameX; exact Hr|].
+    destruct (u =? o)%N; [inversion HF; subst; apply gframeX_refl|].
     destruct (dict_entries (hp s2) d_old); [|discriminate]. inversion HF; subst.
-    apply dframeX_upd. left. reflexivity.
-  - apply dframeX_upd. left. reflexivity.
+    apply gframeX_upd. left. reflexivity.
+  - apply gframeX_upd. left. reflexivity.
 Qed.
 
-Lemma setattr_class_body_frame stk ex c_old c_new k s s' r :
-  setattr_class modname rec stk c_old c_new (Ok s c_old) k = Ok s' r -> dframeX stk ex s s'.
+Lemma setattr_class_body_frame stk c_old c_new k s s' r :
+  setattr_class modname rec stk c_old c_new (Ok s c_old) k = Ok s' r -> gframeX stk (Some c_old) s s'.
 Proof.
   unfold setattr_class. simpl.
   destruct (class_getattr (hp s) c_new k) as [[b|g]|]; [| |discriminate].
   - destruct (class_getattr (hp s) c_old k) as [[a|f]|].
-    + destruct (a =? b)%N; [intros H; inversion H; subst; apply dframeX_refl|].
+    + destruct (a =? b)%N; [intros H; inversion H; subst; apply gframeX_refl|].
       intros H. apply bind_ok in H. destruct H as [s2 [u [Hr H]]].
-      eapply dframeX_trans; [eapply rec_frameX; exact Hr|].
-      destruct (u =? a)%N; [inversion H; subst; apply dframeX_refl|].
+      eapply gframeX_trans; [eapply rec_frameX; exact Hr|].
+      destruct (u =? a)%N; [inversion H; subst; apply gframeX_refl|].
       destruct (class_entries (hp s2) c_old); [|discriminate]. inversion H; subst.
       apply set_class_entries_frame.
     + destruct (class_entries (hp s) c_old); [|discriminate]. intros H. inversion H; subst.
@@ -211,20 +235,41 @@ Lemma setattr_class_is_bind stk c_old c_new :
   fun acc k => bind acc (fun s _ => setattr_class modname rec stk c_old c_new (Ok s c_old) k).
 Proof. reflexivity. Qed.
 
-Lemma patch_class_frame stk ex s c_old c_new s' r :
-  patch_class modname bases_ok nm rec s stk c_old c_new = Ok s' r -> dframeX stk ex s s'.
+Lemma patch_class_body_frame stk c_old c_new s mapped s' r :
+  patch_class_body modname bases_ok nm rec stk c_old c_new s mapped = Ok s' r -> gframeX stk (Some c_old) s s'.
+Proof.
+  unfold patch_class_body. destruct (lookup (hp s) c_old) as [o|] eqn:Eo; [|discriminate].
+  destruct o; try discriminate. destruct (lookup (hp s) c_new) as [n|]; [|discriminate].
+  destruct n; try discriminate.
+  match goal with |- context [if ?c then Ok s c_new else _] => destruct c end;
+    [intros H; inversion H; subst; apply gframeX_refl|].
+  rewrite setattr_class_is_bind. intros H.
+  eapply (fold_bind_inv _ (fun sx => gframeX stk (Some c_old) s sx)); [| |exact H].
+  - intros k s0 s1 a1 _ HP HF. eapply gframeX_trans; [exact HP|].
+    eapply setattr_class_body_frame. exact HF.
+  - apply gframeX_upd. left. reflexivity.
+Qed.
+
+Lemma map_bases_frame stk ex obs (k : st -> list addr -> res) :
+  (forall s l s' r, k s l = Ok s' r -> gframeX stk ex s s') ->
+  forall nbs s acc s' r, map_bases rec stk obs nbs s acc k = Ok s' r -> gframeX stk ex s s'.
+Proof.
+  intros Hk. induction nbs as [|nb nbs IH]; intros s acc s' r H; simpl in H.
+  - eapply Hk. exact H.
+  - destruct (find_old_base (hp s) obs nb) as [ob|].
+    + apply bind_ok in H. destruct H as [s2 [u [Hr H]]].
+      eapply gframeX_trans; [eapply rec_frameX; exact Hr|]. eapply IH. exact H.
+    + eapply IH. exact H.
+Qed.
+
+Lemma patch_class_frame stk s c_old c_new s' r :
+  patch_class modname bases_ok nm rec s stk c_old c_new = Ok s' r -> gframeX stk (Some c_old) s s'.
 Proof.
   unfold patch_class. destruct (lookup (hp s) c_old) as [o|] eqn:Eo; [|discriminate].
   destruct o; try discriminate. destruct (lookup (hp s) c_new) as [n|]; [|discriminate].
   destruct n; try discriminate.
-  destruct (slots_differ nm (hp s) cdict cdict0); [intros H; inversion H; subst; apply dframeX_refl|].
-  match goal with |- context [if ?c then Ok s c_new else _] => destruct c end;
-    [intros H; inversion H; subst; apply dframeX_refl|].
-  rewrite setattr_class_is_bind. intros H.
-  eapply (fold_bind_inv _ (fun sx => dframeX stk ex s sx)); [| |exact H].
-  - intros k s0 s1 a1 _ HP HF. eapply dframeX_trans; [exact HP|].
-    eapply setattr_class_body_frame. exact HF.
-  - apply dframeX_upd. right. intros e He. congruence.
+  destruct (slots_differ nm (hp s) cdict cdict0); [intros H; inversion H; subst; apply gframeX_refl|].
+  apply map_bases_frame. intros s0 l s1 r1. apply patch_class_body_frame.
 Qed.
 
 Lemma slot_step_is_bind stk i_old i_new :
@@ -232,39 +277,39 @@ Lemma slot_step_is_bind stk i_old i_new :
   fun acc k => bind acc (fun s _ => slot_step rec stk i_old i_new (Ok s i_old) k).
 Proof. reflexivity. Qed.
 
-Lemma slot_step_body_frame stk ex i_old i_new k s s' r :
-  slot_step rec stk i_old i_new (Ok s i_old) k = Ok s' r -> dframeX stk ex s s'.
+Lemma slot_step_body_frame stk i_old i_new k s s' r :
+  slot_step rec stk i_old i_new (Ok s i_old) k = Ok s' r -> gframeX stk (Some i_old) s s'.
 Proof.
   unfold slot_step. simpl.
   destruct (inst_slotvals (hp s) i_old) as [so|]; [|discriminate].
   destruct (inst_slotvals (hp s) i_new) as [sn|]; [|discriminate].
   destruct (aget so k) as [a|]; destruct (aget sn k) as [b|].
-  - destruct (a =? b)%N; [intros H; inversion H; subst; apply dframeX_refl|].
+  - destruct (a =? b)%N; [intros H; inversion H; subst; apply gframeX_refl|].
     intros H. apply bind_ok in H. destruct H as [s2 [u [Hr H]]].
-    eapply dframeX_trans; [eapply rec_frameX; exact Hr|].
-    destruct (u =? a)%N; [inversion H; subst; apply dframeX_refl|].
+    eapply gframeX_trans; [eapply rec_frameX; exact Hr|].
+    destruct (u =? a)%N; [inversion H; subst; apply gframeX_refl|].
     destruct (inst_slotvals (hp s2) i_old); [|discriminate]. inversion H; subst. apply set_slotvals_frame.
   - intros H. inversion H; subst. apply set_slotvals_frame.
   - intros H. inversion H; subst. apply set_slotvals_frame.
-  - intros H. inversion H; subst. apply dframeX_refl.
+  - intros H. inversion H; subst. apply gframeX_refl.
 Qed.
 
-Lemma patch_object_frame stk ex s a b s' r :
-  patch_object modname rec s stk a b = Ok s' r -> dframeX stk ex s s'.
+Lemma patch_object_frame stk s a b s' r :
+  patch_object modname rec s stk a b = Ok s' r -> gframeX stk (Some a) s s'.
 Proof.
   unfold patch_object. destruct (lookup (hp s) a) as [o|]; [|discriminate].
-  destruct o; try (intros H; inversion H; subst; apply dframeX_refl).
-  destruct (class_md (hp s) cls) as [m|]; [|intros H; inversion H; subst; apply dframeX_refl].
-  destruct (negb (m =? modname)%N); [intros H; inversion H; subst; apply dframeX_refl|].
+  destruct o; try (intros H; inversion H; subst; apply gframeX_refl).
+  destruct (class_md (hp s) cls) as [m|]; [|intros H; inversion H; subst; apply gframeX_refl].
+  destruct (negb (m =? modname)%N); [intros H; inversion H; subst; apply gframeX_refl|].
   destruct islots as [names1|].
   - destruct (lookup (hp s) b) as [n|]; [|discriminate]. destruct n; try discriminate.
     destruct islots as [names2|]; [|discriminate].
     destruct (negb (listN_eqb names1 names2)); [discriminate|].
     rewrite slot_step_is_bind. intros H.
-    eapply (fold_bind_inv _ (fun sx => dframeX stk ex s sx)); [| |exact H].
-    + intros k s0 s1 a1 _ HP HF. eapply dframeX_trans; [exact HP|]. eapply slot_step_body_frame. exact HF.
-    + apply dframeX_refl.
-  - destruct idict as [dd1|]; [|intros H; inversion H; subst; apply dframeX_refl].
+    eapply (fold_bind_inv _ (fun sx => gframeX stk (Some a) s sx)); [| |exact H].
+    + intros k s0 s1 a1 _ HP HF. eapply gframeX_trans; [exact HP|]. eapply slot_step_body_frame. exact HF.
+    + apply gframeX_refl.
+  - destruct idict as [dd1|]; [|intros H; inversion H; subst; apply gframeX_refl].
     destruct (lookup (hp s) b) as [n|]; [|discriminate]. destruct n; try discriminate.
     destruct idict as [dd2|]; [|discriminate].
     intros H. apply bind_ok in H. destruct H as [s2 [u [Hr H]]]. inversion H; subst.
@@ -272,7 +317,7 @@ Proof.
 Qed.
 
 Lemma patch_module_frame stk ex s a b s' r :
-  patch_module rec s stk a b = Ok s' r -> dframeX stk ex s s'.
+  patch_module rec s stk a b = Ok s' r -> gframeX stk ex s s'.
 Proof.
   unfold patch_module. destruct (lookup (hp s) a) as [o|]; [|discriminate]. destruct o; try discriminate.
   destruct (lookup (hp s) b) as [n|]; [|discriminate]. destruct n; try discriminate.
@@ -281,7 +326,7 @@ Proof.
 Qed.
 
 Lemma dispatch_frame t stk s old new s' r :
-  dispatch modname bases_ok nm rec t s stk old new = Ok s' r -> dframeX stk (Some old) s s'.
+  dispatch modname bases_ok nm rec t s stk old new = Ok s' r -> gframeX stk (Some old) s s'.
 Proof.
   destruct t; simpl; intros H;
     first [ eapply patch_dict_frame; exact H
@@ -293,31 +338,31 @@ Proof.
 Qed.
 
 Lemma do_livepatch_frame stk s old new am s' r :
-  do_livepatch modname newmod_dict bases_ok nm rec s stk old new am = Ok s' r -> dframeX stk (Some old) s s'.
+  do_livepatch modname newmod_dict bases_ok nm rec s stk old new am = Ok s' r -> gframeX stk (Some old) s s'.
 Proof.
   unfold do_livepatch.
   match goal with |- context [if ?c then Ok s new else _] => destruct c end;
-    [intros H; inversion H; subst; apply dframeX_refl|].
+    [intros H; inversion H; subst; apply gframeX_refl|].
   destruct am; [apply patch_module_frame|].
   destruct (lookup (hp s) old) as [oo|]; [|discriminate].
   destruct (lookup (hp s) new) as [on|]; [|discriminate].
   destruct (ty_eqb (tyof oo) (tyof on)); [apply dispatch_frame|].
-  destruct (tyof oo) eqn:T1; try (intros H; inversion H; subst; apply dframeX_refl).
-  destruct (tyof on) eqn:T2; try (intros H; inversion H; subst; apply dframeX_refl).
+  destruct (tyof oo) eqn:T1; try (intros H; inversion H; subst; apply gframeX_refl).
+  destruct (tyof on) eqn:T2; try (intros H; inversion H; subst; apply gframeX_refl).
   match goal with |- context [if ?c then _ else Ok s new] => destruct c end;
-    [|intros H; inversion H; subst; apply dframeX_refl].
+    [|intros H; inversion H; subst; apply gframeX_refl].
   intros H. apply bind_ok in H. destruct H as [s2 [u [Hr H]]].
-  eapply dframeX_trans; [eapply rec_frameX; exact Hr|].
-  destruct (u =? c)%N; [|inversion H; subst; apply dframeX_refl].
+  eapply gframeX_trans; [eapply rec_frameX; exact Hr|].
+  destruct (u =? c)%N; [|inversion H; subst; apply gframeX_refl].
   eapply dispatch_frame. exact H.
 Qed.
 
 Lemma lp_body_frame stack s old new am s' r :
-  lp_body modname newmod_dict bases_ok nm rec s stack old new am = Ok s' r -> dframe stack s s'.
+  lp_body modname newmod_dict bases_ok nm rec s stack old new am = Ok s' r -> gframe stack s s'.
 Proof.
-  unfold lp_body. destruct (old =? new)%N; [intros H; inversion H; subst; apply dframeX_refl|].
-  destruct (memN old stack) eqn:Em; [intros H; inversion H; subst; apply dframeX_refl|].
-  destruct (cache_find (cache s) old new); [intros H; inversion H; subst; apply dframeX_refl|].
+  unfold lp_body. destruct (old =? new)%N; [intros H; inversion H; subst; apply gframeX_refl|].
+  destruct (memN old stack) eqn:Em; [intros H; inversion H; subst; apply gframeX_refl|].
+  destruct (cache_find (cache s) old new); [intros H; inversion H; subst; apply gframeX_refl|].
   intros H. apply bind_ok in H. destruct H as [s2 [u [Hd H]]]. inversion H; subst. clear H.
   apply do_livepatch_frame in Hd.
   intros d e Hin _ Hl. simpl. apply (Hd d e).
@@ -329,13 +374,28 @@ Qed.
 
 End Frame.
 
-(* the frame property of livepatch itself *)
+(* the frame property of livepatch itself: dicts, classes and instances on the visit stack *)
+Theorem lp_gframe modname newmod_dict bases_ok nm fuel :
+  forall s stack old new s' r,
+    lp modname newmod_dict bases_ok nm fuel s stack old new = Ok s' r -> gframe stack s s'.
+Proof.
+  induction fuel as [|f IH]; intros s stack old new s' r H; simpl in H; [discriminate|].
+  eapply lp_body_frame; [|exact H]. exact IH.
+Qed.
+
 Theorem lp_frame modname newmod_dict bases_ok nm fuel :
   forall s stack old new s' r,
     lp modname newmod_dict bases_ok nm fuel s stack old new = Ok s' r -> dframe stack s s'.
 Proof.
-  induction fuel as [|f IH]; intros s stack old new s' r H; simpl in H; [discriminate|].
-  eapply lp_body_frame; [|exact H]. exact IH.
+  intros s stack old new s' r H. apply gframeX_dframeX. eapply lp_gframe. exact H.
+Qed.
+
+Theorem lp_gframe_plain modname newmod_dict bases_ok nm fuel s stack old new s' r :
+  lp modname newmod_dict bases_ok nm fuel s stack old new = Ok s' r ->
+  forall d o, In d stack -> lookup (hp s) d = Some o -> protected o = true -> lookup (hp s') d = Some o.
+Proof.
+  intros H d o Hin Hl Hp.
+  apply (lp_gframe modname newmod_dict bases_ok nm fuel s stack old new s' r H d o Hin); [discriminate|exact Hl|exact Hp].
 Qed.
 
 Theorem lp_frame_plain modname newmod_dict bases_ok nm fuel s stack old new s' r :
